@@ -451,10 +451,15 @@ def check_forwarding(ctx, fx, cfg):
             gb0 = ctx.body(fx, g)
             for _b0, t0 in gb0.normal_calls():
                 h0 = fx.callee_fn(t0)
-                if h0 is None or h0["def"] == callee or h0.get("is_async") or h0["kind"] not in ("fn", "assoc_fn") or h0 in fam:
+                if h0 is None or h0["def"] == callee or h0["kind"] not in ("fn", "assoc_fn") or h0 in fam:
+                    continue
+                if h0.get("is_async") and h0.get("vis") == "pub":
                     continue
                 if (h0.get("impl_self") or "") == (f.get("impl_self") or "?") and t0["args"] and all(r.kind in ("arg", "upvar") for r in roots(gb0, t0["args"][0])):
                     fam.append(h0)
+                    # (a private `async fn try_join(&mut self)` awaited by the entry point: its body is its coroutine)
+                    if h0.get("is_async"):
+                        fam.extend(c for c in fx.children_of(h0["def"]) if c["kind"] == "coroutine" and c not in fam)
         hits = []
         for g in fam:
             gb = ctx.body(fx, g)
